@@ -91,8 +91,15 @@ def build(r, name, n=None, generics=None):
         items.append("derive(%s)" % ", ".join(spec.dderives))
     if getattr(spec, "pass_repr", None):
         items.append("repr(%s)" % spec.pass_repr)      # a plain pass-through attribute for the generated enum only
-    if spec.dstyle:
-        items.append("strum(serialize_all = %s)" % rs_str(spec.dstyle))
+    # a second pass-through group with the same path: both must reach the generated enum
+    spec.dprefix = r.choice(["d.", "K::", "é"]) if (spec.dderives and r.random() < 0.4) else None
+    if spec.dstyle and spec.dprefix and r.random() < 0.25:
+        items.append("strum(serialize_all = %s, prefix = %s)" % (rs_str(spec.dstyle), rs_str(spec.dprefix)))
+    else:
+        if spec.dstyle:
+            items.append("strum(serialize_all = %s)" % rs_str(spec.dstyle))
+        if spec.dprefix:
+            items.insert(r.randint(0, len(items)), "strum(prefix = %s)" % rs_str(spec.dprefix))
     if r.random() < 0.3:
         items.append("allow(dead_code)")
     if r.random() < 0.3:
@@ -165,7 +172,8 @@ def glue(spec):
     inner += "    let all: Vec<%s> = <%s as strum::IntoEnumIterator>::iter().collect();\n" % (dn, dn)
     inner += "    let vals: Vec<i128> = all.iter().map(|d| (*d as R) as i128).collect();\n"
     inner += "    m.expect_eq(\"disc-type\", \"D values\", \"discriminant list\", &vals, &discs.to_vec(), true);\n"
-    shown = [spec.custom.get(i, model.convert_case(v.ident, spec.dstyle)) for i, v in enumerate(spec.variants)]
+    parsed = [spec.custom.get(i, model.convert_case(v.ident, spec.dstyle)) for i, v in enumerate(spec.variants)]
+    shown = [(getattr(spec, "dprefix", None) or "") + x for x in parsed]      # the prefix is part of the printed name only
     dd = " ".join(spec.dderives)
     if "Display" in dd:
         inner += "    let shown: Vec<String> = all.iter().map(|d| d.to_string()).collect();\n"
@@ -177,8 +185,8 @@ def glue(spec):
         inner += "    vmon::names::check_table(m, \"disc-type\", \"D::VARIANTS (requested derive)\", <%s as strum::VariantNames>::VARIANTS, %s, true);\n" % (dn, str_slice(shown))
     if "EnumCount" in dd:
         inner += "    m.expect_eq(\"disc-type\", \"D::COUNT\", \"count\", &<%s as strum::EnumCount>::COUNT, &%d, true);\n" % (dn, len(names))
-    if "EnumString" in dd and len(set(shown)) == len(shown):
-        inner += "    for (i, s) in (%s).iter().enumerate() { m.expect_eq(\"disc-type\", \"D::from_str (requested derive)\", s, &<%s as std::str::FromStr>::from_str(s).ok(), &Some(all[i]), true); }\n" % (str_slice(shown), dn)
+    if "EnumString" in dd and len(set(parsed)) == len(parsed):
+        inner += "    for (i, s) in (%s).iter().enumerate() { m.expect_eq(\"disc-type\", \"D::from_str (requested derive)\", s, &<%s as std::str::FromStr>::from_str(s).ok(), &Some(all[i]), true); }\n" % (str_slice(parsed), dn)
     if "Hash" in dd:
         inner += "    let hs: std::collections::HashSet<%s> = all.iter().cloned().collect();\n" % dn
         inner += "    m.expect_eq(\"disc-type\", \"Hash (requested derive)\", \"set size\", &hs.len(), &all.len(), true);\n"
@@ -252,7 +260,7 @@ def check(run):
         for _ in range(2):
             k += 1
             s = None
-            while s is None:
+            while s is None or getattr(s, "pass_repr", None):     # (a pass-through repr would conflict with the one set here)
                 s = build(r0, "E%d" % k, n=1)
             s.repr = rp
             s.int_repr = None if rp == "C" else rp.split(",")[-1].strip()
